@@ -185,8 +185,10 @@ def main():
         if code == 100:
             ambiguous += 1
         elif code != 0:
-            # a disagreement explained by a listed finding on the same case is not a new alarm
-            if any(k in [kk[0] for kk in known] for k, _ in rec["oracle"]):
+            # a disagreement explained by a listed finding on the same case is not a new alarm; a property module can say
+            # which checker codes a finding can explain (EXPLAINS = {key: {codes}}), otherwise it explains any code
+            expl = getattr(mod, "EXPLAINS", {})
+            if any(k in [kk[0] for kk in known] and (k not in expl or code in expl[k]) for k, _ in rec["oracle"]):
                 continue
             disagreements.append((rec, "model evaluation failed inside coqc" if code == -1 else
                                   "model and implementation differ (checker code %d)" % code))
